@@ -161,7 +161,7 @@ def run_property(prop, tier='quick', seed=0, jobs=None, only=None):
 
   try:
     cmods = _load_modules(prop, 'contracts')
-    bmods = _load_modules(prop, 'bounded')
+    bmods = [] if os.environ.get('PYVC_NO_BOUNDED') else _load_modules(prop, 'bounded')
   except Exception as e:  # pylint: disable=broad-except
     tb = traceback.format_exc()
     out(f'CHECKER-ERROR property={prop} loading contracts: {e!r}\n{tb}')
